@@ -20,6 +20,7 @@ import (
 	"github.com/tencent/goom/internal/bytecode/memory"
 	"github.com/tencent/goom/internal/patch"
 	"github.com/tencent/goom/zzverif/corpus/fn"
+	"github.com/tencent/goom/zzverif/corpus/sig"
 )
 
 func goid() int {
@@ -78,6 +79,12 @@ func TestVerifConcStress(t *testing.T) {
 	// steady target: method (*S).H mocked once with an origin-calling callback
 	steady := mocker.Create()
 	steady.Struct(&fn.S{}).Method("H").Origin(&fn.OMH).Apply(func(s *fn.S, a int) int { return 3000 + fn.OMH(s, a) })
+	// a second steady target: a function stubbed with one CONDITION per caller (When(arg).Return(7000+arg)) - the matchers of one
+	// stub are shared by all its callers, and every caller must be answered according to its own argument
+	wh := steady.Func(sig.F1).Return(-1)
+	for k := 0; k < 16; k++ {
+		wh = wh.When(5 + k).Return(7000 + 5 + k)
+	}
 	mu.Lock()
 	evs = evs[:0] // the steady mock's own events are not part of the rounds
 	mu.Unlock()
@@ -170,6 +177,13 @@ func TestVerifConcStress(t *testing.T) {
 						mu.Unlock()
 						return
 					}
+					if got2 := sig.F1(arg); got2 != 7000+arg {
+						e := concEv{Seq: atomic.AddInt64(&seq, 1), G: me, Ev: "call", Ok: false, Got: got2}
+						mu.Lock()
+						evs = append(evs, e)
+						mu.Unlock()
+						return
+					}
 					runtime.Gosched()
 				}
 				e := concEv{Seq: atomic.AddInt64(&seq, 1), G: me, Ev: "call", Ok: true}
@@ -204,7 +218,8 @@ func TestVerifConcStress(t *testing.T) {
 		// quiescence: only the steady target's entry and its placeholder may differ from the pristine image
 		sym := fn.Pkg + ".(*S).H"
 		ph := fn.Pkg + ".PhMH"
-		allowed := []rng2{{im.funcs[sym][0], im.funcs[sym][0] + 13}, {im.funcs[ph][0], im.funcs[ph][1]}}
+		f1 := sig.Pkg + ".F1"
+		allowed := []rng2{{im.funcs[sym][0], im.funcs[sym][0] + 13}, {im.funcs[ph][0], im.funcs[ph][1]}, {im.funcs[f1][0], im.funcs[f1][0] + 13}}
 		okq := true
 		for _, d := range im.diff() {
 			in := false
